@@ -147,7 +147,6 @@ struct World
         std::uint8_t  index;
         std::uint32_t since, passed;    // see C23_latency_state.cpp
         std::uint8_t  cfg, pulled;
-        std::uint8_t  inst_pending; std::uint16_t inst;
         std::uint8_t  closed;
         std::uint8_t  cancel_req;       // the link layer called request_event_cancelation(); the radio owes it a try_event_cancelation()
         std::uint8_t  must_cancel;      // ... and a callback ( end_event / timeout ) ran since: run() serves the request in the same pass
@@ -255,7 +254,12 @@ struct World
         {
         case ev_empty: case ev_read: case ev_md: case ev_crc: case ev_unack: case ev_map2: case ev_map6:
         {
-            if ( ( ev == ev_map2 || ev == ev_map6 ) && ref.inst_pending ) return false;
+            // the pending instant is the one the link layer registered itself ( observation ): a request is only sent while none is
+            // registered and the transmit buffer is empty, so that it is processed in the event that carries it
+            const bool had_instant = !ll->defered_ll_control_pdu_.empty();
+            const std::uint16_t had_instant_at = ll->defered_conn_event_counter_;
+            if ( ( ev == ev_map2 || ev == ev_map6 ) && ( had_instant || ll->pending_outgoing_data_available() ) ) return false;
+            bool carried = false; std::uint16_t carried_instant = 0;
             std::uint8_t map_req[ 10 ] = { 0x03, 0x08, 0x01, 0xff, 0xff, 0xff, 0xff, 0x1f, 0, 0 };
             typename ll_t::in_pdu p[ 2 ]; unsigned np = 0, max_ex = 6;
             if ( ev == ev_read ) { p[ np++ ] = mk( read_req, sizeof read_req ); }
@@ -265,7 +269,7 @@ struct World
                 const std::uint16_t instant = std::uint16_t( before.counter + ( ev == ev_map2 ? 2 : 6 ) );
                 map_req[ 8 ] = std::uint8_t( instant ); map_req[ 9 ] = std::uint8_t( instant >> 8 );
                 p[ np++ ] = mk( map_req, sizeof map_req );
-                ref.inst_pending = 1; ref.inst = instant;
+                carried = true; carried_instant = instant;
             }
             ll->sim_event( np ? p : nullptr, np, max_ex, ev == ev_crc, ev == ev_unack );
             if ( closed( c, "after-event" ) ) { normalise(); return true; }
@@ -275,7 +279,11 @@ struct World
             const unsigned e    = ll->cap.evts | ( ll->cap.pending_at_schedule ? PEND : 0 );
             const unsigned mask = cfg_masks[ ref.cfg ];
             const unsigned hit  = ( mask & ALWAYS ) ? ALWAYS : ( e & ( mask | ERR ) );
-            const unsigned dist = ref.inst_pending ? std::uint16_t( ref.inst - before.counter ) : 0;
+            // distance of the instant the plan had to respect ( registered before, or by the request of this very event )
+            const bool now_instant = !ll->defered_ll_control_pdu_.empty();
+            const unsigned dist = had_instant ? std::uint16_t( had_instant_at - before.counter )
+                                : ( carried && ( now_instant || after.counter == carried_instant ) ) ? std::uint16_t( carried_instant - before.counter ) : 0;
+            if ( carried ) c.cls( dist ? "map-request:registered" : "map-request:not-processed-in-this-event" );
             c.obs = mc::fmt( "events {%s}; counter %u->%u index %u->%u time %u us; pending data afterwards: %d", evts_text( e ).c_str(), before.counter, after.counter, before.index, after.index, after.time,
                              int( ll->pending_outgoing_data_available() ) );
             if ( adv == 0 || adv >= 0x8000 )
@@ -307,7 +315,6 @@ struct World
                 c.fail( "ll-plan:outgoing-data-created-after-planning-waits-for-latency",
                         mc::fmt( "%s: end_event() returned with outgoing data in the transmit buffer, but the next connection event is %u events away (nothing was pending when it was planned); %s",
                                  cfgkind().c_str(), adv, c.obs.c_str() ) );
-            if ( ref.inst_pending && ref.counter == ref.inst ) ref.inst_pending = 0;
             c.cls( mc::fmt( "ll-plan:%s:%s:%s", cfgkind().c_str(),
                             hit ? ( ( hit & ALWAYS ) ? "listen_always" : ( hit & ERR ) ? "error" : cond_name[ __builtin_ctz( hit ) ] ) : "nothing-to-listen-for",
                             adv == 1 ? "next-event" : ( dist && adv == dist ) ? "skip-to-instant" : adv == latency + 1 ? "full-skip" : "partial-skip" ) );
@@ -328,7 +335,8 @@ struct World
             ref.passed = ref.since; ref.since += 1; ref.counter = after.counter; ref.index = std::uint8_t( after.index );
             check_window( "timeout", c );
             if ( ref.cancel_req ) ref.must_cancel = 1;
-            if ( ref.inst_pending && ref.counter == ref.inst ) ref.inst_pending = 0;
+            if ( !ll->defered_ll_control_pdu_.empty() && std::int16_t( ll->defered_conn_event_counter_ - before.counter ) > 0 && std::int16_t( ll->defered_conn_event_counter_ - after.counter ) < 0 )
+                c.fail( "ll-timeout:skipped-past-pending-instant", c.obs );
             normalise();
             return true;
         }
